@@ -18,7 +18,7 @@ XReset == mem' = NoMem /\ hx' = [relblk |-> <<>>, failed |-> FALSE, ended |-> FA
 XQuiescent == HeapQuiescent
 XInv == HeapInv
 
-RetX(r) == RetCollect(r) \/ RetDe(r)
+RetX(r) == RetCollect(r) \/ RetDe(r) \/ RetDeInPlace(r)
 UnwoundX(u) == UnwoundCollect(u)
 DropX(e, panics) == CollectDrop(e, panics) \/ DeDrop(e, panics)
 
